@@ -36,14 +36,25 @@ def two_instances_for(tier):
     def fn(w):
         pairs = [([step.StoreObj(0, 0), step.StoreObj(1, 0)], MIX_INITS[0]),
                  ([step.Delete(0), step.StoreObj(1, 0)], ("a bound to X", {"bind_0": 0, "obj_0": True})),
-                 ([step.Tag(1, 0), step.Delete(0)], ("a bound to X", {"bind_0": 0, "obj_0": True})),
                  ([step.StoreMeta(0, 0, None), step.StoreMeta(0, 1, None)], MIX_INITS[1]),
+                 ([step.Tag(1, 0), step.Delete(0)], ("a bound to X", {"bind_0": 0, "obj_0": True})),
                  ([step.StoreObj(0, 0), step.StoreObj(0, 0)], MIX_INITS[0]),
                  ([step.Delete(0), step.DeleteMeta(0, None, all_docs=True)], MIX_INITS[1])]
         out = []
         for calls, (iname, init) in pairs[:(6 if tier == "thorough" else 3)]:
             out.append(("%s || through two store instances || from: %s" % (" || ".join(c.label for c in calls), iname),
                         init, calls, dict(instances=2)))
+        # while a call is under way, the process sets USE_MULTIPROCESSING (and leaves it set) and opens the store once
+        # more in that mode, as the README shows: the mode of the running instance was fixed when it was initialised
+
+        def open_other(w, s):
+            w.shim.fs.env["USE_MULTIPROCESSING"] = "True"
+            w.M.FileHashStore(w.props("/s"))
+        opener = step.Raw("open the store once more in multiprocessing mode", "FileHashStore(...) in the other mode",
+                          open_other, ["ok"])
+        for call, (iname, init) in ((step.StoreObj(0, 0), MIX_INITS[0]), (step.Delete(0), MIX_INITS[1]),
+                                    (step.StoreMeta(0, 1, None), MIX_INITS[1])):
+            out.append(("%s || %s || from: %s" % (call.label, opener.label, iname), init, [call, opener]))
         return out
     return fn
 
